@@ -1,6 +1,6 @@
 ---------------------------- MODULE StreamTrace -----------------------------
 (* C03, code -> spec: every record-level diff the driver observed on the real code
-       {edit, old: [[kind, uid]...], new: [[kind, uid]...]}
+       {edit, old: [[kind, uid]...], new: [[kind, uid]...], oldc / newc: [[kind, cid, ext]...]}
    (same uid = byte-identical record text) is validated against the frame property and the placement rule
    of StreamOps.  Thousands of traces per TLC run; accepted ids are printed, rejected ones with the reason. *)
 EXTENDS StreamOps, TLC, Json, IOUtils
@@ -14,8 +14,12 @@ Ed == Traces[tid].edit
 TraceInit == tid \in 1..Len(Traces)
 TraceNext == UNCHANGED tid
 KnownEdit == Ed \in Edits
+Triples(s) == [i \in 1..Len(s) |-> <<s[i][1], s[i][2], s[i][3]>>]
+OldC == Triples(Traces[tid].oldc)
+NewC == Triples(Traces[tid].newc)
 FrameOK == FrameHolds(Old, New, Ed)
+CommentsOK == CommentsHold(OldC, NewC, Ed)
 PlaceOK == PlacementHolds(Old, New, Ed)
-Emit == IF KnownEdit /\ FrameOK /\ PlaceOK THEN PrintT(<<"ACC", ToJson(tid)>>)
-        ELSE PrintT(<<"REJ", ToJson([tid |-> tid, known |-> KnownEdit, frame |-> FrameOK, placement |-> KnownEdit /\ FrameOK /\ PlaceOK])>>)
+Emit == IF KnownEdit /\ FrameOK /\ PlaceOK /\ CommentsOK THEN PrintT(<<"ACC", ToJson(tid)>>)
+        ELSE PrintT(<<"REJ", ToJson([tid |-> tid, known |-> KnownEdit, frame |-> FrameOK, placement |-> PlaceOK, comments |-> CommentsOK])>>)
 =============================================================================
